@@ -11,7 +11,7 @@
 (* IEEE doubles (error <= 2 ulp).  They are used only to rank candidates   *)
 (* inside an explicit tie band, never where a property demands exactness.  *)
 (***************************************************************************)
-EXTENDS Integers, Sequences
+EXTENDS Integers, Sequences, TLC
 
 Rat == STRING
 
@@ -43,6 +43,9 @@ RShow(a)        == CHOOSE r \in STRING : TRUE   \* decimal rendering for message
 RECURSIVE RSumRec(_, _)
 RSumRec(s, k) == IF k = 0 THEN "0" ELSE RAdd(RSumRec(s, k - 1), s[k])
 RSum(s) == RSumRec(s, Len(s))
+
+\* ascending sort (the Java RSort is an accelerator of this definition)
+RSort(s) == SortSeq(s, RLt)
 
 RZero == "0"
 ROne  == "1"
